@@ -137,11 +137,18 @@ func vNewFs() (*vRecFs, FS) {
 // VerifC08_Listings: walk, ls, recursive ls, tree listing, sub-directories.
 func VerifC08_Listings() {
 	_, fs := vNewFs()
+	op := verif.Choice("op", 6)
+	if (op == 1 || op == 3 || op == 4) && verif.Bool("backslashSeparator") {
+		// ls, tree listing and sub-directories also on a filesystem that declares '\\' as its path separator
+		// (the separator is written into the expressions derived from each pattern). The walk-based
+		// operations are left out: over this '/'-based in-memory backend they fail without any pattern,
+		// which says something about that combination of backend and separator, not about exclusions.
+		fs = NewVirtualFileSystemWithPathSeparator(newRecFs(afero.NewMemMapFs()), InMemoryFS, IdentityPathConverterFunc, '\\')
+	}
 	const root = "/r"
 	nodes := vGenTree(fs, root)
 	pats := vPickPatterns()
 	ctx := context.Background()
-	op := verif.Choice("op", 6)
 	var reported []string
 	var err error
 	maxDepth, dirsOnly := 2, false
